@@ -14,7 +14,9 @@ func normalizeInvoice(inv *bill.Invoice) {
 	normalizeParty(inv.Supplier)
 	normalizeParty(inv.Customer)
 	for _, line := range inv.Lines {
-		normalizeItem(line.Item)
+		if line != nil {
+			normalizeItem(line.Item)
+		}
 	}
 
 }
